@@ -34,14 +34,14 @@ def classLoop (cp : Bytes) (c : Nat) (icase : Bool) : Nat → Nat → BR
         match decAt cp i with
         | none => BR.trap
         | some beg =>
-          let i1 := i + ucLen b0
+          let i1 := i + rxLen cp i
           match rdb cp i1, rdb cp (i1 + 1) with
           | some d, some e =>
             if d == 45 && e != 0 && e != 93 then
               match decAt cp (i1 + 1) with
               | none => BR.trap
               | some en =>
-                let i2 := i1 + 1 + ucLen e
+                let i2 := i1 + 1 + rxLen cp (i1 + 1)
                 if foldc icase beg ≤ c && c ≤ foldc icase en then BR.hit else classLoop cp c icase f i2
             else if foldc icase beg ≤ c && c ≤ foldc icase beg then BR.hit else classLoop cp c icase f i1
           | some _, none =>
@@ -79,7 +79,7 @@ def brkLoop (p : Bytes) (c : Nat) (icase : Bool) : Nat → Nat → BR
           match decAt p i with
           | none => BR.trap
           | some beg =>
-            let i1 := i + ucLen b0
+            let i1 := i + rxLen p i
             match rdb p i1 with
             | none => BR.trap
             | some d =>
@@ -91,7 +91,7 @@ def brkLoop (p : Bytes) (c : Nat) (icase : Bool) : Nat → Nat → BR
                     match decAt p (i1 + 1) with
                     | none => BR.trap
                     | some en =>
-                      let i2 := i1 + 1 + ucLen e
+                      let i2 := i1 + 1 + rxLen p (i1 + 1)
                       if foldc icase beg ≤ c && c ≤ foldc icase en then BR.hit else brkLoop p c icase f i2
                   else if foldc icase beg ≤ c && c ≤ foldc icase beg then BR.hit else brkLoop p c icase f i1
               else if foldc icase beg ≤ c && c ≤ foldc icase beg then BR.hit else brkLoop p c icase f i1
@@ -120,7 +120,7 @@ def chrIcase (lit subj : Bytes) (pos : Nat) : Nat → Nat → AR
     | some b =>
       match decAt lit k, decAt subj (pos + k) with
       | some c1, some c2 =>
-        if foldc true c1 != foldc true c2 then AR.fail else chrIcase lit subj pos f (k + ucLen b)
+        if foldc true c1 != foldc true c2 then AR.fail else chrIcase lit subj pos f (k + rxLen lit k)
       | _, _ => AR.trap
 
 /-- the first byte of the character before `pos` (`uc_beg(o, s - 1)`), for `pos > 0` -/
@@ -142,7 +142,7 @@ def atomMatch (a : Atom) (subj : Bytes) (flg : Nat) (pos : Nat) : AR :=
         if (subj.drop pos).take a.s.length == a.s then AR.ok (pos + a.s.length) else AR.fail
       else chrIcase a.s subj pos (a.s.length + 2) 0
     | AK.any =>
-      if cur == 0 || (cur == 10 && nl) then AR.fail else AR.ok (pos + ucLen cur)
+      if cur == 0 || (cur == 10 && nl) then AR.fail else AR.ok (pos + rxLen subj pos)
     | AK.brk =>
       match decAt subj pos with
       | none => AR.trap
@@ -150,7 +150,7 @@ def atomMatch (a : Atom) (subj : Bytes) (flg : Nat) (pos : Nat) : AR :=
         if c == 0 || (c == 10 && nl && a.s.getD 1 0 == 94) then AR.fail
         else match brkMatch (a.s.drop 1) c icase with
           | none => AR.trap
-          | some true => AR.ok (pos + ucLen cur)
+          | some true => AR.ok (pos + rxLen subj pos)
           | some false => AR.fail
     | AK.beg =>
       if pos == 0 then (if hasFlag flg REG_NOTBOL then AR.fail else AR.ok pos)
@@ -240,7 +240,7 @@ def execLoop : Nat → Nat → Nat → ExecRes
       match recmatch cx start cuts with
       | Res.ok _ m c => ExecRes.found m c
       | Res.trap => ExecRes.trap
-      | Res.fail c => if b == 0 then ExecRes.nomatch c else execLoop f (start + ucLen b) c
+      | Res.fail c => if b == 0 then ExecRes.nomatch c else execLoop f (start + rxLen cx.subj start) c
 
 /-- `regexec(preg, s, nsub, psub, flg)`: group offsets `(so, eo)` for `i < nsub` -/
 def regexec (p : Prog) (subj : Bytes) (nsub : Nat) (eflg : Nat) (nd ngrps : Nat) : ExecRes × List (Int × Int) :=
